@@ -8,7 +8,11 @@
    Before fixes/C09-deterministic-order.diff Go iterates the candidate map in random order and sorts with an unstable
    sort: the model returns the SET of files the code may answer (all candidates of maximal score); the repaired code
    (order_fixed cfg = true) answers the best-scored candidate with the least path: a singleton. Assumptions: one workspace root (mainDir set,
-   no sub-directories, no client ext path); first analysis pass (checkTerm = first). *)
+   no sub-directories, no client ext path); first analysis pass (checkTerm = first).
+   The record rcfg carries, after the real settings, one boolean per repair (false = the code before it, true = the
+   repaired code): order_fixed (fixes/C09-deterministic-order.diff), stem_fixed (fixes/C18-dotted-path.diff (1473636)),
+   lit_fixed (fixes/C18-dofile-no-suffix.diff (526bcd1)), dotslash_fixed (fixes/C18-dot-slash-definition.diff (49c8cf0)),
+   reanalyse_fixed (fixes/C18-create-not-reanalysed.diff (f48e6f9)). *)
 From Coq Require Import List NArith ZArith Bool.
 From LH Require Import Base.Bytes Model.FileIndex.
 Import ListNotations.
@@ -35,11 +39,17 @@ Definition calc_score (cur refer cand : list N) : Z :=
 
 (* ---- GetBestMatchReferFile ---- *)
 (* candidateVec in the iteration order of the inner map (the explicit order parameter = order of the list) *)
-Definition bm_candidates (refer : list N) (st : idx) : list (list N) :=
+(* by_name = true : the reference names the file with its suffix: looked up by the full file name;
+   by_name = false: looked up by the file name without suffix, compared with the path without suffix *)
+Definition bm_candidates_g (by_name : bool) (refer : list N) (st : idx) : list (list N) :=
   let tmp := slash :: refer in
-  if has_dot refer
+  if by_name
   then map fst (filter (fun e => is_suffix tmp (fst e)) (get_name_map st (last_seg refer)))
   else map fst (filter (fun e => negb (is_nil (snd e)) && is_suffix tmp (snd e)) (get_pre_map st (last_seg refer))).
+
+(* GetBestMatchReferFile: "with suffix" iff the reference contains a '.' *)
+Definition bm_candidates (refer : list N) (st : idx) : list (list N) :=
+  bm_candidates_g (has_dot refer) refer st.
 
 Definition max_score (cur refer : list N) (c0 : list N) (cs : list (list N)) : Z :=
   fold_left (fun m c => Z.max m (calc_score cur refer c)) cs (calc_score cur refer c0).
@@ -92,10 +102,19 @@ Definition least_path (cs : list (list N)) : option (list N) :=
 Definition best_match (fx : bool) (cur refer : list N) (cs : list (list N)) : option (list N) :=
   if fx then least_path (argmax_set cur refer cs) else first_max cur refer cs.
 
-(* the set of files the code may answer: a singleton (or empty) once repaired *)
+(* the set of files the code may answer among the candidates cs: a singleton (or empty) once repaired *)
+Definition best_of (fx : bool) (cur refer : list N) (cs : list (list N)) : list (list N) :=
+  if fx then match best_match true cur refer cs with Some c => [c] | None => [] end
+  else argmax_set cur refer cs.
+
 Definition best_set_fx (fx : bool) (cur refer : list N) (st : idx) : list (list N) :=
-  if fx then match best_match true cur refer (bm_candidates refer st) with Some c => [c] | None => [] end
-  else best_set cur refer st.
+  best_of fx cur refer (bm_candidates refer st).
+
+(* GetBestMatchSuffixFile (fixes/C18-dofile-no-suffix.diff): the reference of a dofile / loadfile / suffix-style import
+   names the file literally - always looked up by the full file name. lit = false: the code before that repair
+   (GetBestMatchReferFile: a text without '.' was looked up like a require) *)
+Definition best_set_lit (lit fx : bool) (cur refer : list N) (st : idx) : list (list N) :=
+  best_of fx cur refer (bm_candidates_g (lit || has_dot refer) refer st).
 
 (* ---- CheckReferFile ---- *)
 Inductive rkind := KRequire | KSuffix | KFrameNoSuffix.
@@ -106,9 +125,13 @@ Record rcfg := mk_rcfg {
   ignore_refer : list (list N);       (* IgnoreReferFileMap *)
   ignore_modules : list (list N);     (* IgnoreRequireSystemModule *)
   main_dir : list N;                  (* DirManager.mainDir, not empty *)
-  order_fixed : bool                  (* not a setting: which GetBestMatchReferFile is modelled - false: before
+  order_fixed : bool;                 (* not a setting: which GetBestMatchReferFile is modelled - false: before
                                          fixes/C09-deterministic-order.diff (any best-scored candidate), true: the
                                          repaired one (the best-scored candidate with the least path) *)
+  stem_fixed : bool;                  (* the file index cuts names at the Lua suffix (FileIndex.suffix_index) *)
+  lit_fixed : bool;                   (* dofile / loadfile / suffix-style imports are looked up literally *)
+  dotslash_fixed : bool;              (* definition / hover drop a leading "./" like the analysis *)
+  reanalyse_fixed : bool              (* every create / delete event re-resolves the references of every file *)
 }.
 
 Record routcome := mk_rout {
@@ -149,7 +172,7 @@ Section Resolve.
       let p := complete_path (main_dir cfg) str_file in
       if disk p then found [p]
       else if exact_mode cfg then not_found
-      else match best_set_fx (order_fixed cfg) cur str_file st with
+      else match best_set_lit (lit_fixed cfg) (order_fixed cfg) cur str_file st with
            | [] => not_found
            | l => found l
            end
@@ -178,6 +201,7 @@ Section Resolve.
      is_require = matched by the require pattern *)
   Definition open_list (is_require need_suffix : bool) (s : list N) : list (list N) :=
     let s1 := if need_suffix && is_suffix lua_ext s then firstn (Nat.sub (length s) 4) s else s in
+    let s1 := if dotslash_fixed cfg then remove_pre_str s1 else s1 in
     let s2 := replace_byte dot slash s1 in
     let modn := if is_suffix lua_ext s2 then firstn (Nat.sub (length s2) 4) s2 else s2 in
     if is_nil s2 then [] else
@@ -221,7 +245,7 @@ Record pstate := mk_pstate {
 Section Events.
   Variable cfg : rcfg.
   Variable cur : list N.
-  Variable fixed : bool.           (* false: RemoveOneFile as written; true: with work/fixes/C18-remove-key.diff *)
+  Variable fixed : bool.           (* false: RemoveOneFile as first written; true: with work/fixes/C18-remove-key.diff (ec76861) *)
 
   Definition disk_of (d : list (list N)) : list N -> bool := fun p => mem_bytes p d.
 
@@ -259,13 +283,15 @@ Section Events.
     let f := match e with Ins p => p | Rem p => p end in
     let d := match e with Ins p => if mem_bytes p (ps_disk s) then ps_disk s else ps_disk s ++ [p]
                         | Rem p => del_bytes p (ps_disk s) end in
-    let st := match e with Ins p => idx_insert p (ps_idx s)
-                         | Rem p => if fixed then idx_remove_fixed p (ps_idx s) else idx_remove p (ps_idx s) end in
+    let st := match e with Ins p => idx_insert (stem_fixed cfg) p (ps_idx s)
+                         | Rem p => if fixed then idx_remove_fixed (stem_fixed cfg) p (ps_idx s)
+                                    else idx_remove (stem_fixed cfg) p (ps_idx s) end in
     let ld := match e with Ins p => if mem_bytes p (ps_loaded s) then ps_loaded s else ps_loaded s ++ [p]
                          | Rem p => del_bytes p (ps_loaded s) end in
-    (* ReanalyseReferInfo: only when cur has a type-6 error or one of its references touches the changed file *)
+    (* ReanalyseReferInfo. Before fixes/C18-create-not-reanalysed.diff: only when cur has a type-6 error or one of its
+       references touches the changed file; repaired: always *)
     let has_err := existsb rs_err (ps_refs s) in
-    let touch := if has_err then Some true else any_touch f (ps_refs s) in
+    let touch := if reanalyse_fixed cfg || has_err then Some true else any_touch f (ps_refs s) in
     match touch with
     | Some true => mk_pstate d st ld (map (reanalyse_ref d st) (ps_refs s)) (ps_ambig s)
     | Some false => mk_pstate d st ld (ps_refs s) (ps_ambig s)
@@ -273,6 +299,6 @@ Section Events.
     end.
 
   Definition pinit (disk lua : list (list N)) (refs : list (rkind * list N)) : pstate :=
-    let st := idx_run (map Ins lua) in
+    let st := idx_run_g (stem_fixed cfg) (map Ins lua) in
     mk_pstate disk st lua (map (fun kr => first_ref disk st (fst kr) (snd kr)) refs) false.
 End Events.
